@@ -60,7 +60,7 @@ def sites(path):
             code_no_str = code
         for name, pat, rep in OPS:
             for m in re.finditer(pat, code_no_str):
-                new = l[:m.start()] + re.sub(pat, rep, l[m.start():m.end()]) + l[m.end():]
+                new = l[:m.start()] + rep + l[m.end():]     # (not re.sub on the slice: look-behinds cannot match there)
                 if new != l: out.append((i, name, m.start(), new))
     return out
 
